@@ -35,7 +35,7 @@ S = None  # the active scheduler
 
 
 class Sched:
-    def __init__(self, seed=0, choices=None, horizon=120.0, yield_on_start=True):
+    def __init__(self, seed=0, choices=None, horizon=120.0, yield_on_start=True, line_yield=()):
         self.rng = random.Random(seed)
         self.preset = list(choices) if choices is not None else None
         self.choices = []            # decisions actually taken (only where > 1 thread was runnable)
@@ -49,6 +49,9 @@ class Sched:
         self.horizon_hit = False
         self.shutdown = False
         self.yield_on_start = yield_on_start
+        # (file suffix, function name) pairs whose every source line is a yield point (byte-code-level preemption,
+        # for the few races on plain attributes with no blocking operation in between)
+        self.line_yield = set(tuple(x) for x in line_yield)
         self.counts = {}
         self.main = _real_current()
         self._reg(self.main, 'main')
@@ -165,11 +168,25 @@ class Sched:
         info = self.threads[t]
         orig = t.run
 
+        def tracer(frame, event, arg):
+            co = frame.f_code
+            for suffix, fn in self.line_yield:
+                if co.co_name == fn and co.co_filename.endswith(suffix):
+                    def local(frame, event, arg):
+                        if event == 'line' and not self.shutdown:
+                            self.block(what='line %d' % frame.f_lineno)
+                        return local
+                    return local
+            return None
+
         def run():
             info['sem'].acquire()
             try:
                 if not self.shutdown:
                     info['pred'] = None
+                    if self.line_yield:
+                        import sys as _sys
+                        _sys.settrace(tracer)
                     orig()
             except Killed:
                 pass
@@ -397,10 +414,10 @@ _orig_is_alive = _RealThread.is_alive
 _patched_modules = []
 
 
-def install(seed=0, choices=None, horizon=120.0, extra_modules=(), yield_on_start=True):
+def install(seed=0, choices=None, horizon=120.0, extra_modules=(), yield_on_start=True, line_yield=()):
     """Create the scheduler for one run and rebind the names cflib sees."""
     global S
-    S = Sched(seed, choices, horizon, yield_on_start)
+    S = Sched(seed, choices, horizon, yield_on_start, line_yield)
     threading.Thread.start = d_start
     threading.Thread.join = d_join
     threading.Thread.is_alive = d_is_alive
